@@ -82,7 +82,8 @@ def grouping_rules_hold(self):
 
 contract(L + "ListGrader.validate_grouping", props=["C20"],
     requires=["is_object(self)", "has_attr(self, 'subgrader_list') and has_attr(self, 'config') and has_attr(self, 'grouping')", "is_bool(self.subgrader_list)",
-              "is_dict(self.config) and allocated(self.config) and has_keys(self.config, 'subgraders', 'ordered')", "is_bool(self.config['ordered'])",
+              "is_dict(self.config) and allocated(self.config) and has_keys(self.config, 'subgraders', 'ordered', 'grouping')", "is_bool(self.config['ordered'])",
+              "is_list(self.config['grouping']) and allocated(self.config['grouping'])",
               "is_list(self.grouping) and allocated(self.grouping) and len(self.grouping) >= 1",
               "forall(range(len(self.grouping)), lambda i: is_list(self.grouping[i]) and allocated(self.grouping[i]))",
               "is_object(self.config['subgraders']) or is_list(self.config['subgraders'])", "allocated(self.config['subgraders'])",
